@@ -225,6 +225,59 @@ def gen_args(rng, name, needs, avoid_optpos=True, all_tags=False):
     return out
 
 
+def repeat_cases():
+    """Deterministic: every command/test with an optional tag group, the group filled TWICE with every ordered
+    pair of its tags (parameters included), other groups left out.  The later tag wins and only its parameter
+    may be kept (C04: the printed form must be accepted and parse to the same tree)."""
+    out = []
+    for name, spec in sorted(S.SPEC.items()):
+        if name in S.OPTPOS or spec.get("test") or spec.get("testlist"):
+            continue
+        for grp in spec["groups"]:
+            tags = sorted(grp)
+            for t1 in tags:
+                for t2 in tags:
+                    needs = set()
+                    if spec["ext"]:
+                        needs.add(spec["ext"])
+                    args = []
+                    for tag in (t1, t2):
+                        ptype, pvals, ext = grp[tag]
+                        if ext:
+                            needs.add(ext)
+                        args.append(T("tag", tag))
+                        if ptype is not None:
+                            if pvals is not None:
+                                args.append(T("str", pvals[0]))
+                            elif ptype == "n":
+                                args.append(T("num", "7"))
+                            elif ptype == "sl":
+                                args += [T("[", "["), T("str", '"p"'), T(",", ","), T("str", '"q"'), T("]", "]")]
+                            else:
+                                args.append(T("str", '"p"'))
+                    for ty in spec["pos"]:
+                        if isinstance(ty, tuple):
+                            args.append(T("tag", ty[1][0]))
+                        elif ty == "n":
+                            args.append(T("num", "10"))
+                        else:
+                            args.append(T("str", '"v"'))
+                    req = []
+                    if needs:
+                        req = [T("id", "require"), T("[", "[")]
+                        for i, e in enumerate(sorted(needs)):
+                            if i:
+                                req.append(T(",", ","))
+                            req.append(T("str", '"%s"' % e))
+                        req += [T("]", "]"), T(";", ";")]
+                    if spec["kind"] == "test":
+                        body = [T("id", "if"), T("id", name)] + args + [T("{", "{"), T("id", "stop"), T(";", ";"), T("}", "}")]
+                    else:
+                        body = [T("id", name)] + args + [T(";", ";")]
+                    out.append(req + body)
+    return out
+
+
 TESTS = [n for n, d in S.SPEC.items() if d["kind"] == "test"]
 ACTIONS = [n for n, d in S.SPEC.items() if d["kind"] != "test" and not d["block"] and n != "require"]
 
